@@ -527,6 +527,7 @@ def World.step (w : World) (line : String) : World :=
     let h := toks.getD 1 ""
     let w := if h == "failget" then { w with faulty := true } else if h == "okget" then { w with faulty := false } else w
     if h == "usedb" then w.useDb (natOr (toks.getD 2 "") 0)
+    else if h == "exchangeall" || h == "exchangeall-done" then { w with lastOpDb := none }   -- touches every shared database
     else if ["put", "del", "add", "docput", "docdel", "docputall", "docputbatch", "sync", "pubdeliver", "exchange", "restart", "inject", "syncasync"].contains h then
       { w with lastOpDb := some w.curDb }
     else w
